@@ -38,6 +38,9 @@ pub struct Scn {
     /// process stratum case (replay of a dead worker)
     #[serde(default)]
     pub proc_case: Option<ProcCase>,
+    /// execute in a child process (a script that overflows the native stack or aborts kills it)
+    #[serde(default)]
+    pub isolated: bool,
 }
 
 pub struct C06;
@@ -60,6 +63,20 @@ pub fn loop_templates() -> Vec<(&'static str, String)> {
     v.push(("generator-forever", "function* gen(): any { let i = 0; while (true) { yield i++; } } const it = gen(); let t = 0; for (;;) { t = it.next().value; }".into()));
     v.push(("try-finally-loop", "for (;;) { try { continue; } finally { } }".into()));
     v.push(("labelled", "outer: for (;;) { for (;;) { continue outer; } }".into()));
+    v.push(("bound-loop", "const spin = function (this: any): void { for (;;) {} }.bind({ a: 1 }); spin();".into()));
+    v.push(("bound-recursion", "function f(n: number): number { return g(n + 1); } const g = f.bind(null); g(0);".into()));
+    v.push(("bound-method-recursion", "class B { m(n: number): number { const k = this.m.bind(this); return k(n + 1); } } new B().m(0);".into()));
+    v.push(("spread-call-recursion", "function sp(...a: number[]): number { return sp(...a, 1).valueOf(); } sp(0);".into()));
+    v.push(("super-method-recursion", "class P { m(n: number): number { return n; } } class Q extends P { m(n: number): number { return super.m(n) + this.m(n + 1); } } new Q().m(0);".into()));
+    v.push(("derived-ctor-recursion", "class R { constructor(n: number) {} } class S extends R { k: any; constructor(n: number) { super(n); this.k = new S(n + 1); } } new S(0);".into()));
+    v.push(("default-param-recursion", "function dp(n: number, m: number = dp(n + 1)): number { return m; } dp(0);".into()));
+    v.push(("optional-call-loop", "const oc: any = { f(n: number): number { return oc.f?.(n + 1); } }; oc.f(0);".into()));
+    v.push(("closure-loop", "const mk = (): any => () => { for (;;) {} }; mk()();".into()));
+    v.push(("switch-loop", "let z = 0; for (;;) { switch (z % 3) { case 0: z++; break; default: z += 2; } }".into()));
+    v.push(("for-of-array-loop", "const big: number[] = [1, 2, 3]; for (;;) { for (const x of big) { if (x > 5) break; } }".into()));
+    v.push(("for-in-loop", "const ob: any = { a: 1, b: 2 }; for (;;) { for (const k in ob) { if (k === 'z') break; } }".into()));
+    v.push(("template-call-loop", "const tf = (n: number): string => `${n}`; let q = ''; for (;;) { q = `${tf(1)}`; }".into()));
+    v.push(("async-loop", "async function al(): Promise<void> { for (;;) { await 1; } } await al();".into()));
     v
 }
 
@@ -94,6 +111,7 @@ impl Check for C06 {
                 answers_tape: Tape::from_vec(vec![]),
                 case: None,
                 proc_case: None,
+                isolated: false,
             };
         }
         let holes = if rng.chance(0.4) { 1 + rng.below(3) } else { 0 };
@@ -108,6 +126,7 @@ impl Check for C06 {
             answers_tape: Tape::random(rng, 16),
             case: Some(case),
             proc_case: None,
+            isolated: false,
         }
     }
 
@@ -123,6 +142,9 @@ impl Check for C06 {
 
     fn execute(&self, scn: &Scn) -> RunReport {
         let mut rep = RunReport::default();
+        if scn.isolated {
+            return run_isolated(scn);
+        }
         if let Some(pc) = &scn.proc_case {
             let r = run_proc_case(pc);
             if r.starts_with("DIED") {
@@ -267,6 +289,10 @@ pub fn recursion_templates() -> Vec<(&'static str, &'static str)> {
         ("rec-sort-comparator", "const s = (n: number): number => n <= 0 ? 0 : [2, 1].sort((a: number, b: number) => { s(n - 1); return a - b; })[0]; s(N)"),
         ("rec-replace-callback", "const r = (n: number): string => n <= 0 ? '' : 'a'.replace('a', () => r(n - 1) + 'b'); r(N).length"),
         ("rec-call-apply", "function c(n: number): number { return n <= 0 ? 0 : 1 + c.call(null, n - 1); } c(N)"),
+        ("rec-bound", "function bf(n: number): number { return n <= 0 ? 0 : 1 + bg(n - 1); } const bg = bf.bind(null); bg(N)"),
+        ("rec-super-method", "class P { m(n: number): number { return n <= 0 ? 0 : 1; } } class Q extends P { m(n: number): number { return n <= 0 ? super.m(n) : 1 + this.m(n - 1); } } new Q().m(N)"),
+        ("rec-derived-ctor", "class R { constructor(n: number) {} } class S extends R { d: number; constructor(n: number) { super(n); this.d = n <= 0 ? 0 : 1 + new S(n - 1).d; } } new S(N).d"),
+        ("rec-async", "async function ar(n: number): Promise<number> { return n <= 0 ? 0 : 1 + (await ar(n - 1)); } await ar(N)"),
     ]
 }
 
@@ -425,7 +451,7 @@ pub fn process_stratum(
             } else if fails.len() < 4 {
                 fails.push((
                     Failure::new("worker_process_died", format!("{} -> {}", key, r), json!({"case": c, "result": r})),
-                    json!({"source": "", "step_budget": 0, "depth_limit": 0, "answers_tape": {"v": []}, "case": null, "proc_case": c}),
+                    json!({"source": "", "step_budget": 0, "depth_limit": 0, "answers_tape": {"v": []}, "case": null, "proc_case": c, "isolated": false}),
                 ));
             }
         } else if known.contains(&key) {
@@ -446,5 +472,202 @@ pub fn process_stratum(
         json!({"cases": cases.len(), "outcome_classes": tally, "died_and_listed_as_known": died_known.len(), "listed_but_survived_now": no_longer, "died_cases": all_died,
                "address_space_cap_kib": 4194304, "stacks_kib": STACKS_KB, "sizes": ALLOC_SIZES, "depths": REC_DEPTHS}),
     );
+    fails
+}
+
+
+// ───────────────────────────── in-process stratum, run inside worker processes ─────────────────────────────
+
+fn batch_scenario(seed: u64, i: usize) -> Scn {
+    let sid = crate::rng::stream_id("C06/programs");
+    let mut r = Rng::new(crate::rng::derive(seed, sid, i as u64));
+    C06.generate(&mut r, i, Tier::Quick)
+}
+
+pub fn batch_worker(seed: u64, from: usize, to: usize) {
+    use std::io::Write;
+    let out = std::io::stdout();
+    // a big stack for the legitimate part; a native-stack overflow still kills the worker
+    let h = std::thread::Builder::new().stack_size(64 * 1024 * 1024).spawn(move || {
+        for i in from..to {
+            let scn = batch_scenario(seed, i);
+            {
+                let mut o = out.lock();
+                let _ = writeln!(o, "S {}", i);
+                let _ = o.flush();
+            }
+            let rep = crate::framework::execute_caught(&C06, &scn);
+            let counters = serde_json::to_string(&rep.counters).unwrap_or_default();
+            let mut o = out.lock();
+            let _ = writeln!(
+                o,
+                "R {} {:x} {} {} {} {}",
+                i,
+                rep.trace_hash,
+                rep.nontrivial as u8,
+                rep.failure.as_ref().map(|f| f.clause.clone()).unwrap_or_else(|| "-".into()),
+                rep.sim_instructions,
+                counters
+            );
+            let _ = o.flush();
+        }
+    });
+    if let Ok(h) = h {
+        let _ = h.join();
+    }
+}
+
+pub fn exec_one_from_stdin() -> i32 {
+    let mut buf = String::new();
+    let _ = std::io::Read::read_to_string(&mut std::io::stdin(), &mut buf);
+    match serde_json::from_str::<Scn>(&buf) {
+        Ok(scn) => {
+            let h = std::thread::Builder::new().stack_size(64 * 1024 * 1024).spawn(move || crate::framework::execute_caught(&C06, &scn));
+            match h.map(|h| h.join()) {
+                Ok(Ok(rep)) => {
+                    match rep.failure {
+                        Some(f) => println!("FAIL {} {}", f.clause, f.observed.replace('\n', " ")),
+                        None => println!("OK {:x} {}", rep.trace_hash, rep.nontrivial as u8),
+                    }
+                    0
+                }
+                _ => 3,
+            }
+        }
+        Err(e) => {
+            eprintln!("bad scenario: {}", e);
+            2
+        }
+    }
+}
+
+pub fn run_isolated(scn: &Scn) -> RunReport {
+    use std::io::Write;
+    let mut rep = RunReport::default();
+    let exe = std::env::current_exe().unwrap_or_default();
+    let mut inner = scn.clone();
+    inner.isolated = false;
+    let json_s = serde_json::to_string(&inner).unwrap_or_default();
+    let child = std::process::Command::new(&exe)
+        .arg("c06-exec-one")
+        .stdin(std::process::Stdio::piped())
+        .stdout(std::process::Stdio::piped())
+        .stderr(std::process::Stdio::piped())
+        .spawn();
+    let Ok(mut child) = child else {
+        rep.fail(Failure::new("harness_cannot_spawn_worker", "spawn failed", json!({})));
+        return rep;
+    };
+    if let Some(mut si) = child.stdin.take() {
+        let _ = si.write_all(json_s.as_bytes());
+    }
+    match child.wait_with_output() {
+        Ok(o) => {
+            let stdout = String::from_utf8_lossy(&o.stdout).to_string();
+            if o.status.success() {
+                if let Some(l) = stdout.lines().find(|l| l.starts_with("FAIL ")) {
+                    let mut it = l.splitn(3, ' ');
+                    let _ = it.next();
+                    let clause = it.next().unwrap_or("?");
+                    rep.fail(Failure::new(clause, it.next().unwrap_or(""), json!({"isolated": true})));
+                } else if let Some(l) = stdout.lines().find(|l| l.starts_with("OK ")) {
+                    let mut it = l.split(' ');
+                    let _ = it.next();
+                    rep.trace_hash = it.next().and_then(|h| u64::from_str_radix(h, 16).ok()).unwrap_or(0);
+                    rep.nontrivial = it.next() == Some("1");
+                }
+            } else {
+                use std::os::unix::process::ExitStatusExt;
+                let stderr = String::from_utf8_lossy(&o.stderr).to_string();
+                let how = format!("code={:?} signal={:?}", o.status.code(), o.status.signal());
+                let why: String = stderr.lines().filter(|l| l.contains("overflow") || l.contains("allocation") || l.contains("panicked")).take(2).collect::<Vec<_>>().join(" | ");
+                rep.fail(Failure::new("script_killed_the_process", how.clone(), json!({"how": how, "stderr_excerpt": why.chars().take(300).collect::<String>()})));
+            }
+        }
+        Err(e) => rep.fail(Failure::new("harness_cannot_wait_worker", e.to_string(), json!({}))),
+    }
+    rep
+}
+
+/// Parent: run `n` in-process scenarios spread over worker processes.
+pub fn batch_stratum(seed: u64, n: usize, threads: usize, cov: &mut std::collections::BTreeMap<String, Value>, xs: &mut crate::framework::ExtraStats) -> Vec<(Failure, Value)> {
+    let mut fails: Vec<(Failure, Value)> = Vec::new();
+    let exe = std::env::current_exe().unwrap_or_default();
+    let w = threads.max(1);
+    let per = n.div_ceil(w);
+    let mut children = Vec::new();
+    for k in 0..w {
+        let (from, to) = (k * per, ((k + 1) * per).min(n));
+        if from >= to {
+            break;
+        }
+        if let Ok(c) = std::process::Command::new(&exe)
+            .args(["c06-batch-worker", &seed.to_string(), &from.to_string(), &to.to_string()])
+            .stdout(std::process::Stdio::piped())
+            .stderr(std::process::Stdio::piped())
+            .spawn()
+        {
+            children.push((from, to, c));
+        }
+    }
+    let mut done = 0u64;
+    let mut distinct: std::collections::HashSet<String> = Default::default();
+    for (from, to, c) in children {
+        let Ok(o) = c.wait_with_output() else { continue };
+        let stdout = String::from_utf8_lossy(&o.stdout).to_string();
+        let (mut last_started, mut last_done): (Option<usize>, Option<usize>) = (None, None);
+        for l in stdout.lines() {
+            let p: Vec<&str> = l.splitn(7, ' ').collect();
+            if p.first() == Some(&"S") {
+                last_started = p.get(1).and_then(|x| x.parse().ok());
+            } else if p.first() == Some(&"R") {
+                last_done = p.get(1).and_then(|x| x.parse().ok());
+                done += 1;
+                if p.get(3) == Some(&"1") {
+                    distinct.insert(p.get(2).unwrap_or(&"").to_string());
+                }
+                xs.counters.entry("sim_instructions_in_workers".into()).and_modify(|v| *v += p.get(5).and_then(|x| x.parse::<u64>().ok()).unwrap_or(0)).or_insert(0);
+                if let Some(cj) = p.get(6)
+                    && let Ok(m) = serde_json::from_str::<std::collections::BTreeMap<String, u64>>(cj)
+                {
+                    for (k, v) in m {
+                        *xs.counters.entry(k).or_insert(0) += v;
+                    }
+                }
+                if let Some(cl) = p.get(4)
+                    && *cl != "-"
+                    && fails.len() < 4
+                    && let Some(i) = last_done
+                {
+                    let mut scn = batch_scenario(seed, i);
+                    scn.isolated = true;
+                    fails.push((Failure::new(cl, format!("scenario {}", i), json!({"index": i})), serde_json::to_value(&scn).unwrap_or_default()));
+                }
+            }
+        }
+        if !o.status.success() && fails.len() < 4 {
+            let culprit = match (last_started, last_done) {
+                (Some(s), Some(d)) if s != d => Some(s),
+                (Some(s), None) => Some(s),
+                _ => None,
+            };
+            if let Some(i) = culprit {
+                let stderr = String::from_utf8_lossy(&o.stderr).to_string();
+                let mut scn = batch_scenario(seed, i);
+                scn.isolated = true;
+                fails.push((
+                    Failure::new("script_killed_the_process", format!("worker [{}..{}) died at scenario {}", from, to, i),
+                        json!({"index": i, "stderr_excerpt": stderr.lines().filter(|l| l.contains("overflow") || l.contains("allocation") || l.contains("panicked")).take(2).collect::<Vec<_>>().join(" | ")})),
+                    serde_json::to_value(&scn).unwrap_or_default(),
+                ));
+            }
+        }
+    }
+    xs.evaluations += done;
+    xs.distinct_nontrivial += distinct.len() as u64;
+    for i in 0..2 {
+        xs.samples.push(serde_json::to_value(batch_scenario(seed, i * 4 + 1)).unwrap_or_default());
+    }
+    cov.insert("watchdog_stratum".into(), json!({"scenarios": done, "distinct_nontrivial": distinct.len(), "worker_processes": w}));
     fails
 }
